@@ -8,6 +8,8 @@ Tasks are instances of distinct `Task` subclasses. The tables are read where `ex
 (a list of DataFrames, one per algorithm; there is no public accessor besides `export_results`).
 """
 from __future__ import annotations
+import contextlib
+import io
 import itertools
 import json
 import os
@@ -244,7 +246,8 @@ def run_case(spec):
             os.environ["PVH_C20_LOG"] = str(logf)
             try:
                 for _ in range(spec.get("times", 1)):
-                    mt.execute(n_trials=spec["n_trials"], n_jobs=spec.get("n_jobs", 2))
+                    with contextlib.redirect_stdout(io.StringIO()):
+                        mt.execute(n_trials=spec["n_trials"], n_jobs=spec.get("n_jobs", 2), debug=bool(spec.get("debug", False)))
                 obs["execute"] = "ok"
             except Exception as e:  # noqa
                 obs["execute"] = {"err": rerr_name(e), "msg": str(e)[:200]}
@@ -547,7 +550,7 @@ def gen_execute_cases(ctx):
                         rng.shuffle(fmts)
                         cases.append({"kind": "execute", "label": label, "algs": names_for(rng, n, ALG_NAMES), "tasks": names_for(rng, m, TASK_NAMES),
                                       "modes": modes, "workers": rng.choice([None, 1, 2, 3, 4]), "n_trials": k,
-                                      "n_jobs": rng.choice([2, 2, 1, 3]), "times": 1,
+                                      "n_jobs": rng.choice([2, 2, 1, 3]), "times": 1, "debug": rng.random() < 0.3,      # verbose logging must not change what is computed
                                       "exports": [[f, "default" if rng.random() < 0.25 else "path"] for f in fmts]})
     # a second execute() on the same instance (compared with the model only)
     for _ in range(3 if not ctx.thorough else 9):
